@@ -46,6 +46,7 @@ def run_shard(ctx):
     qmgen.drive_histories(ctx, OWN, qmgen.saturated_pool_history(), ctx.n(600, 10000), nontrivial, salt=9)
     qmgen.drive_histories(ctx, OWN, qmgen.announce_window_history(), ctx.n(800, 12000), nontrivial, salt=11)
     qmgen.drive_histories(ctx, OWN, qmgen.double_report_history(), ctx.n(800, 12000), nontrivial, salt=13)
+    qmgen.drive_histories(ctx, OWN, qmgen.enqueue_vs_load_history(), ctx.n(800, 12000), nontrivial, salt=14)
     qmgen.drive_histories(ctx, OWN, qmgen.storage_fault_history(), ctx.n(800, 12000), nontrivial, salt=12)
 
 
